@@ -13,6 +13,8 @@ mod rng;
 mod schedsim;
 mod dbsim;
 mod sim;
+mod simclock;
+mod syncsim;
 mod storesim;
 mod txhsim;
 mod wiresim;
@@ -145,6 +147,20 @@ fn main() {
 					std::process::exit(2);
 				}
 			}
+		}
+		Some("selftest-clock") => match simclock::selftest() {
+			Ok(s) => println!("ok: {}", s),
+			Err(e) => {
+				eprintln!("HARNESS-ERROR: {}", e);
+				std::process::exit(2);
+			}
+		},
+		Some("syncrun") => {
+			// verif-sim syncrun <seed> [mode]: one sync-loop run, verbose
+			let seed: u64 = args.get(2).and_then(|s| s.parse().ok()).unwrap_or(1);
+			let mode = args.get(3).cloned().unwrap_or_else(|| "auto".to_string());
+			syncsim::debug_run(seed, &mode);
+			node::cleanup_scratch_root();
 		}
 		Some("world") => {
 			let seed: u64 = args.get(2).and_then(|s| s.parse().ok()).unwrap_or(1);
